@@ -106,7 +106,7 @@ GROUPS = [
     tg('remove', 'h_remove', ['qtreetbl_removeobj', 'remove_obj', 'remove_min', 'move_red_left', 'move_red_right', 'fix', 'find_min'], P_ALL,
        probe_inst(5, 9)),
     tg('get', 'h_get', ['qtreetbl_getobj', 'find_obj', 'qtreetbl_size', 'qtreetbl_find_min', 'qtreetbl_find_max', 'find_min', 'find_max', 'qtreetbl_clear'], P_ALL,
-       shape_inst(5, 9)),
+       shape_inst(5, 9, thorough3=True)),
     tg('walk', 'h_walk', ['qtreetbl_getnext', 'reset_iterator'], ['C03', 'C11', 'C12', 'C15'],
        shape_inst(7, 11, thorough3=True)),
     tg('nearest', 'h_nearest', ['qtreetbl_find_nearest', 'qtreetbl_getnext', 'reset_iterator'], ['C04', 'C03', 'C11', 'C14', 'C15'],
